@@ -14,6 +14,7 @@ import (
 )
 
 type c13 struct {
+	mustReject               string // when non-empty: the payload violates a documented validation rule and must be rejected
 	t                        *rapid.T
 	v                        *VestWorld
 	hist                     []string
@@ -74,6 +75,13 @@ func (c *c13) apply(msg sdk.Msg, authority string, what string, partial bool, ex
 	res := RunMsg(c.v.App, c.v.Ctx, msg)
 	after := c.paramsJSON()
 	c.note("%s authority=%q -> ok=%v err=%v", what, authority, res.OK(), errStr(res))
+	if c.mustReject != "" {
+		why := c.mustReject
+		c.mustReject = ""
+		if res.OK() {
+			c.fail("%s violates a documented validation rule (%s) but was accepted", what, why)
+		}
+	}
 	if authority != GovAuthority() {
 		c.classes["non_gov_authority"] = true
 		if res.OK() {
@@ -218,11 +226,18 @@ func TestC13(t *testing.T) {
 				p, _ := n.Build()
 				mut := "valid"
 				if rapid.IntRange(0, 2).Draw(t, "mutate") == 0 {
+					nBefore := len(p.Minters)
 					p, mut = mutateMinterParams(t, p)
 					c.classes["invalid_minter_payload"] = true
+					if mut != "gap_in_ids" || nBefore >= 2 {
+						c.mustReject = mut
+					}
 				}
 				a := auth()
 				if rapid.Bool().Draw(t, "full") {
+					if n.Denom == "" || n.Denom == "x" {
+						c.mustReject = "mint denomination " + n.Denom + " is not a valid denomination"
+					}
 					msg := &mintertypes.MsgUpdateParams{Authority: a, MintDenom: p.MintDenom, StartTime: p.StartTime, Minters: p.Minters}
 					c.apply(msg, a, "minter MsgUpdateParams("+mut+") "+jsonStr(n), false, func(b [3]string) [3]string {
 						np := mintertypes.Params{MintDenom: p.MintDenom, StartTime: p.StartTime, Minters: p.Minters}
@@ -264,6 +279,9 @@ func TestC13(t *testing.T) {
 				}
 				np := n.Build()
 				a := auth()
+				if mut != "valid" {
+					c.mustReject = mut
+				}
 				c.apply(&distrtypes.MsgUpdateParams{Authority: a, SubDistributors: np.SubDistributors}, a, "distributor MsgUpdateParams("+mut+") "+jsonStr(n), false, func(b [3]string) [3]string {
 					b[1] = string(app.AppCodec().MustMarshalJSON(&np))
 					return b
@@ -311,6 +329,7 @@ func TestC13(t *testing.T) {
 				val := sharePool[rapid.IntRange(0, len(sharePool)-1).Draw(t, "val")]
 				if rapid.IntRange(0, 5).Draw(t, "bad") == 0 {
 					val = []string{"1000000000000000000", "-1", "2000000000000000000"}[rapid.IntRange(0, 2).Draw(t, "badval")]
+					c.mustReject = "share outside [0,1)"
 				}
 				a := auth()
 				c.apply(&distrtypes.MsgUpdateSubDistributorDestinationShareParam{Authority: a, SubDistributorName: sdName, DestinationName: shName, Share: dec18(val)}, a,
@@ -335,6 +354,7 @@ func TestC13(t *testing.T) {
 				val := sharePool[rapid.IntRange(0, len(sharePool)-1).Draw(t, "val")]
 				if rapid.IntRange(0, 5).Draw(t, "bad") == 0 {
 					val = []string{"1000000000000000000", "-1"}[rapid.IntRange(0, 1).Draw(t, "badval")]
+					c.mustReject = "burn share outside [0,1)"
 				}
 				a := auth()
 				c.apply(&distrtypes.MsgUpdateSubDistributorBurnShareParam{Authority: a, SubDistributorName: name, BurnShare: dec18(val)}, a,
